@@ -81,7 +81,7 @@ func scenarioC08(c *Ctx) {
 	}
 	nvar := 12
 	if !c.Quick() {
-		nvar = 120
+		nvar = 600
 	}
 	for v := 0; v < nvar; v++ {
 		// (1) random interleaving with another round on the same board
